@@ -3,9 +3,10 @@
 stdin: {"dbdir": path, "scenarios": [{"before": [op..], "child": [op..], "after": [op..]}, ...]}
 stdout: "\n@@JSON@@" + {"results": [...]}
 
-ops: "begin" | "query" | "write" | "end_commit" | "end_rollback" | "disconnect"
+ops: "begin" | "query" | "query_fail" | "write" | "end_commit" | "end_rollback" | "disconnect"
   begin        db_session.__enter__()
   query        sorted markers seen by `select(t.marker for t in T)` (goes through cache.prepare_connection_for_query_execution)
+  query_fail   the same statement while the DB-API connect is made to fail (only matters if the session has to connect)
   write        T(marker=<fresh>) ; flush()   (BEGIN IMMEDIATE + INSERT on the session's connection)
   end_commit   db_session.__exit__()                      end_rollback   rollback(); db_session.__exit__()
   disconnect   db.disconnect()
@@ -66,6 +67,11 @@ def main():
     class SqliteProxy(object):
         def __getattr__(self, n): return getattr(sqlite3, n)
         def connect(self, *a, **k):
+            if state.get('fail_next_connect'):
+                # fault injection from the harness side: the DB-API connect of this statement fails (as a missing file / refused server would)
+                state['fail_next_connect'] = False
+                state['connects_failed'] = state.get('connects_failed', 0) + 1
+                raise sqlite3.OperationalError('injected: unable to open database file')
             real = sqlite3.connect(*a, **k)
             state['counter'] += 1
             ident = (me(), state['counter'])
@@ -94,6 +100,11 @@ def main():
                 elif op == 'query':
                     state['q'] += 1; lim = -state['q']       # a different parameter each time: never answered from the query-result cache
                     res = sorted(orm.select(t.marker for t in T if t.marker > lim)[:])
+                elif op == 'query_fail':
+                    state['q'] += 1; lim = -state['q']
+                    state['fail_next_connect'] = True
+                    try: res = sorted(orm.select(t.marker for t in T if t.marker > lim)[:])
+                    finally: state['fail_next_connect'] = False       # not consumed when the session already had its connection
                 elif op == 'write':
                     n[0] += 1
                     T(marker=n[0]); orm.flush(); res = n[0]
